@@ -12,7 +12,8 @@
    templates and the plain theorems are about it; the harness still determines the variant `vr` from the code on every run
    and the any-variant theorem keeps the guarded statement for the former templates, so a regression is reported with a
    failing input.  The guards np_guard / pl_guard / pg_is_nan_guard are `true` everywhere except on the argument classes of
-   the remaining known findings, each of which has a `_refuted` witness below.
+   the remaining known findings, each of which has a `_refuted` witness below.  Two Polars defects (maximum / minimum skipping a
+   null operand, is_inf of a null) were repaired by /repo 73dee51: their witnesses are regression Examples and corpus files.
    Argument VALUES are universally quantified (all rationals, all strings, all list lengths of is_in / mapv). *)
 From Coq Require Import List Bool QArith String.
 Import ListNotations.
@@ -68,20 +69,14 @@ Theorem C05_postgresql_is_nan_of_uploaded_nan_refuted :
 Proof. exact pg_is_nan_of_nan_refuted_current. Qed.
 Print Assumptions C05_postgresql_is_nan_of_uploaded_nan_refuted.
 
-(* Polars maximum / minimum are max_horizontal / min_horizontal, which skip missing operands *)
-Theorem C05_polars_maximum_minimum_ignore_missing_refuted :
+(* Polars maximum / minimum: a null operand is propagated since /repo 73dee51, but max_horizontal / min_horizontal still skip a float
+   NaN that stands next to a present operand (numpy.maximum, the documented "propogate missing", gives NaN) *)
+Theorem C05_polars_maximum_minimum_skip_nan_refuted :
   forall mf mf2,
   (exists args r r', spec_method mf mf2 "maximum" args = Some r /\ pl_eval mf mf2 "maximum" args = Some r' /\ differs r' r) /\
   (exists args r r', spec_method mf mf2 "minimum" args = Some r /\ pl_eval mf mf2 "minimum" args = Some r' /\ differs r' r).
-Proof. exact polars_maxmin_refuted. Qed.
-Print Assumptions C05_polars_maximum_minimum_ignore_missing_refuted.
-
-(* Polars is_inf of a null is null, not False *)
-Theorem C05_polars_is_inf_of_null_refuted :
-  forall mf mf2,
-  exists args r r', spec_method mf mf2 "is_inf" args = Some r /\ pl_eval mf mf2 "is_inf" args = Some r' /\ differs r' r.
-Proof. exact polars_is_inf_null_refuted. Qed.
-Print Assumptions C05_polars_is_inf_of_null_refuted.
+Proof. exact polars_maxmin_nan_refuted. Qed.
+Print Assumptions C05_polars_maximum_minimum_skip_nan_refuted.
 
 (* Pandas mapv overwrites an infinite mapped value with the default *)
 Theorem C05_pandas_mapv_infinite_value_refuted :
@@ -157,6 +152,13 @@ Example C05_regression_sqlite_abs_sign_infinity :
   sql_eval mf mf2 current DSqlite "abs" [false] [SNInf] = Some SPInf /\
   sql_eval mf mf2 current DSqlite "sign" [false] [SPInf] = Some (SNum 1) /\
   sql_eval mf mf2 shipped DSqlite "abs" [false] [SNInf] = Some SNull.
+Proof. repeat split; reflexivity. Qed.
+(* regression (Polars, repaired by /repo 73dee51): a null operand of maximum / minimum gives null, is_inf of a null is False *)
+Example C05_regression_polars_maximum_null_and_is_inf_null :
+  let mf := fun (_ : string) (_ : Q) => @None Q in let mf2 := fun (_ : string) (_ _ : Q) => @None Q in
+  pl_eval mf mf2 "maximum" [SNum 1; SNull] = Some SNull /\ pl_eval mf mf2 "minimum" [SNull; SNum 1] = Some SNull /\
+  pl_eval mf mf2 "fmax" [SNum 1; SNull] = Some (SNum 1) /\ pl_eval mf mf2 "is_inf" [SNull] = Some (SBool false) /\
+  pl_guard "maximum" [SNum 1; SNull] = true /\ pl_guard "is_inf" [SNull] = true.
 Proof. repeat split; reflexivity. Qed.
 Example C05_aggregate_index_sizes :
   (List.length (supported_agg_sql DSqlite), List.length (supported_agg_sql DPg), List.length supported_agg_pandas, List.length supported_agg_polars) = (28, 29, 39, 39)%nat.
